@@ -354,6 +354,10 @@ func verifGenUpdate(t *verifTable, tag string, slen int) verifStmt {
 		// every row (the prefix rows have a >= 0): a statement with as many row operations as the table has rows
 		op, x = sql.GT, -1
 	}
+	if ux := verifParam("updx", -1); ux >= 0 {
+		// the one row with a = updx (long tables: a fixed depth in the leaf chain instead of a fork per row)
+		op, x = sql.EQ, int64(ux)
+	}
 	nb := verifI64(tag + "nb")
 	ns := verifString(tag+"ns", slen)
 	st := sql.UpdateStatementSearched{TableName: t.name,
@@ -420,15 +424,20 @@ func verifGenRefusedCreate(name string, tag string) verifStmt {
 }
 
 // verifGenRefusedInsert: a one-row INSERT the engine must refuse (a string for
-// the BIGINT column, or an INT beyond 32 bits, by choice).
+// the BIGINT column, an INT beyond 32 bits, or a row of 401 bytes - one more
+// than the largest accepted - by choice; the last one is refused by the page
+// layer, after the executor and the tree have already started on it).
 func verifGenRefusedInsert(t *verifTable, tag string) verifStmt {
 	r := verifSymRow(tag, 1)
-	if verifChoice(tag+"how", 2) == 0 {
+	switch verifChoice(tag+"how", 3) {
+	case 0:
 		r[1] = verifString(tag+"wrong", 1)
-	} else {
+	case 1:
 		x := verifI64(tag + "big")
 		verifAssume(verifOr(x > 2147483647, x < -2147483648))
 		r[0] = x
+	default:
+		r[2] = verifLongString(tag+"long", 380)
 	}
 	st := verifInsertStmt(t.name, nil, [][]interface{}{r})
 	return verifStmt{kind: "refused-insert", table: t.name,
@@ -545,6 +554,7 @@ func verifConcreteInsert(t *verifTable, from, n int) verifStmt {
 //	7: t with 16 rows (three leaves), a=13 deleted
 //	8: t with 30 rows (7 leaves)   9: t with 40 rows and u with 20 rows
 //	10: six tables t,u,v,w,x,y (3 rows / 1 row each): the next CREATE TABLE splits the sys_pages leaf
+//	11: t with 241 rows (about 60 leaves); the next row ids are 255, 256, 257
 func verifPrefixStmts(sc int) []verifStmt {
 	tt := &verifTable{name: "t", cols: verifStdCols}
 	tu := &verifTable{name: "u", cols: verifStdCols}
@@ -589,13 +599,15 @@ func verifPrefixStmts(sc int) []verifStmt {
 		for i, n := range []string{"u", "v", "w", "x", "y"} {
 			out = append(out, verifGenCreate(n), verifConcreteInsert(&verifTable{name: n, cols: verifStdCols}, 100*(i+1), 1))
 		}
+	case 11: // 241 rows (about 60 leaves under one root); the row id counter stands at 254, so the next two ids cross a multiple of 256
+		out = append(out, verifConcreteInsert(tt, 0, 241))
 	default:
 		panic("unknown prefix scenario")
 	}
 	return out
 }
 
-const verifNumPrefixes = 11
+const verifNumPrefixes = 12
 
 // verifNewDB creates the data directory and database "db" and opens it with the timer off.
 func verifNewDB(cacheSize int) *storage.RelationService {
